@@ -537,3 +537,7 @@ mod tests {
         );
     }
 }
+
+#[cfg(all(test, saito_verif))]
+#[path = "/verif/replay/in_crate/peer.rs"]
+mod verif_replay;
